@@ -85,7 +85,17 @@ func (m *QueryMon) Step(w *World, _ string) {
 		if strings.HasPrefix(r.Subject, "get.") && f.Query != "" && m.resets == 0 {
 			name := r.Subject[4:]
 			for _, p := range m.prev {
-				if p.name == name && ((p.query == f.Query && p.state >= 2) || p.linked[f.Query]) {
+				requested := p.state > 2
+				if p.state == 2 {
+					// stateRequested is entered before a throttled get is published:
+					// it is a duplicate only if an earlier get for this query is unanswered
+					for _, o := range w.MQ.Pending() {
+						if o != r && o.Subject == r.Subject && o.Time < r.Time && parseReq(o.Payload).Query == f.Query {
+							requested = true
+						}
+					}
+				}
+				if p.name == name && ((p.query == f.Query && requested) || p.linked[f.Query]) {
 					w.Fail("C13", "duplicate-get", "get.%s {query:%q} requested although that query already is requested, cached or linked", w.Canon(name), f.Query)
 				}
 			}
@@ -218,9 +228,13 @@ type ThrottleMon struct {
 	Throttles func(w *World) int
 	// Expected is the number of governed requests the scenario must publish in total.
 	Expected func(w *World) int
-	hooked   bool
-	maxSeen  int
-	deferred map[*Req]bool
+	// StrictSlots: every request made through a throttle is governed (the
+	// scenario has no other users of throttles), so slots and unanswered
+	// governed requests must match exactly at quiet states.
+	StrictSlots bool
+	hooked      bool
+	maxSeen     int
+	deferred    map[*Req]bool
 }
 
 func (m *ThrottleMon) hook(w *World) {
@@ -268,7 +282,34 @@ func (m *ThrottleMon) hook(w *World) {
 	w.MQ.mu.Unlock()
 }
 
-func (m *ThrottleMon) Step(w *World, _ string) { m.hook(w) }
+func (m *ThrottleMon) Step(w *World, _ string) {
+	m.hook(w)
+	// slot accounting: when the gateway is internally quiet every running slot
+	// of a throttle stands for an unanswered governed request (an answer
+	// releases its slot at once, and a released continuation has run), and a
+	// throttle with waiting callbacks is saturated
+	if m.Limit <= 0 || !w.internalQuiet() {
+		return
+	}
+	running, queued := 0, 0
+	for _, t := range w.S.Throttles() {
+		lim, r, q := t.VerifState()
+		running += r
+		queued += q
+		if q > 0 && r < lim {
+			w.Fail("C19", "idle-slot", "a throttle has %d waiting callback(s) but only %d of %d slots in use", q, r, lim)
+		}
+	}
+	outstanding := 0
+	for _, r := range w.MQ.Pending() {
+		if m.Governed(r) {
+			outstanding++
+		}
+	}
+	if running != outstanding && m.StrictSlots {
+		w.Fail("C19", "slot-not-released", "throttles have %d running slot(s) but %d governed request(s) are unanswered (%d callbacks waiting): an answer did not release its slot", running, outstanding, queued)
+	}
+}
 
 func (m *ThrottleMon) End(w *World) {
 	m.hook(w)
@@ -281,7 +322,7 @@ func (m *ThrottleMon) End(w *World) {
 			n++
 		}
 	}
-	if want := m.Expected(w); n != want {
+	if want := m.Expected(w); want >= 0 && n != want {
 		w.Fail("C19", "stalled-or-extra", "%d governed requests were published in total, expected %d", n, want)
 	}
 }
